@@ -125,6 +125,18 @@ CHECKS = {
             'executed environment call must lead to its original line.',
             'Message containment; non-user frames between user frames allowed; one statement per line.',
             'DESIGN.md 2/C12'),
+    'C13': ('fault_enumeration',
+            'complete decision-table enumeration against an independently written policy table + enumeration of every recorded call boundary of the conversion pipeline as a fault point',
+            'Table: 20 callable kinds x 5 argument shapes x 4 option values x 3 context statuses, and 101 defining-module names '
+            '(each allow-list rule prefix: exact, submodule, two prefix-sharing user modules) x options x statuses = 2.4k rows: result, '
+            'target body invocation count, partial objects unchanged, conversion status restored, "was converted" equal to the '
+            'documented rules. Faults: a fault-free conversion of 3 targets records ~1.5M call boundaries; deduplicated points '
+            '(callee, caller line, occurrence <= 2): all stage points x 12 exception types, fine points x 2 types (quick: every 8th, '
+            'offset by VERIF_SEED; thorough: all), strict mode: direct-call result, target run once, exactly one warning, failure '
+            'remembered, cache lock free, status stack unchanged; strict mode propagates.',
+            'Fault points are identified by (callee, caller line, occurrence), so small run-to-run differences in event order do not '
+            'matter; quick tier covers a stride of the fine points (exhaustive only in thorough).',
+            'DESIGN.md 2/C13'),
     'C14': ('exploration',
             'exhaustive enumeration of call shapes x value alphabets per substituted builtin, differential against the builtin; context builtins in enumerated nestings x all tapes',
             '2.5k calls covering every call shape of the 13 substituted builtins (optional parameters absent / positional / keyword) '
